@@ -142,6 +142,9 @@ class FakeUsbRadio:
         self._resp = None
         self._ctx = self
         self._n = 0
+        self.stalls = {}       # transmission number -> (seconds the USB write takes, seconds the USB read takes); each < its 1 s timeout
+        self.stalled = 0
+        self._tx_no = 0
 
     def _status(self, acked):
         """Status byte of the dongle: bit 0 ack received, bit 1 power detector, bits 4..7 number of retries (the
@@ -179,8 +182,12 @@ class FakeUsbRadio:
     def write(self, endpoint, data, timeout=None):
         frame = bytes(bytearray(data))
         s = ds.CUR
+        self._tx_no += 1
+        st = self.stalls.get(self._tx_no)
         if s is not None and s.managed():
-            s.sleep(0.001)
+            s.sleep(0.001 + (st[0] if st else 0.0))
+        if st:
+            self.stalled += 1
         out = self.outcomes.pop(0) if self.outcomes else 'ok'
         key = (self.channel, self.datarate, self.address)
         peer = self.peers.get(key)
@@ -198,6 +205,10 @@ class FakeUsbRadio:
         return len(frame)
 
     def read(self, endpoint, size, timeout=None):
+        st = self.stalls.get(self._tx_no)
+        s = ds.CUR
+        if st and s is not None and s.managed():
+            s.sleep(st[1])
         r, self._resp = self._resp, None
         import array
         return array.array('B', r if r is not None else b'\x00')
